@@ -790,6 +790,88 @@ def comp_constbranch(prop, tier, comp, work):
 
 
 # --------------------------------------------------------------------------------------------
+# R-TRAITPROV (C11): every static shape/dim/size/bound trait of a view type is derived only from the
+# *type of the run-time accessors* (decltype(view.shape()) / decltype(view.size()), the view's
+# dst_shape_type / dst_size_type / shape_type / size_type typedefs) or, recursively, from the same
+# traits of its operands; no literals, no arithmetic on values except the product of extents / of
+# operand bounds and the fold over operands, never ::min for an upper bound, never ::max for an exact value.
+# --------------------------------------------------------------------------------------------
+TRAITS = ("fixed_shape", "fixed_dim", "fixed_size", "bounded_dim", "bounded_size")
+PROV_NAMES = ("shape_type", "size_type", "dst_shape_type", "dst_size_type")
+
+def rule_traitprov(rows, prop):
+    tbl = load_table("traitprov_tables.json")
+    findings, samples, n = [], [], 0
+    fns = [r for r in rows if "fn" in r and r.get("lambda") and r.get("spec_of", "").split("::")[-1] in TRAITS]
+    for r in fns:
+        trait = r["spec_of"].split("::")[-1]
+        view = r["spec_args"][0] if r.get("spec_args") else "?"
+        n += 1
+        aliases = {f["a"]: f["b"] for f in r["facts"] if f["k"] == "alias"}
+        locs, _ = single_def_locals(r)
+        for f in r["facts"]:
+            if f["k"] != "return":
+                continue
+            e = subst_locals(f["a"], {k: v for k, v in locs.items() if not v.startswith("lambda@")})
+            if re.search(r"error::\w+|detail::Fail", e):
+                continue
+            me = re.fullmatch(r"(\w+)\{\{\}\}", e)
+            if me and re.search(r"error::", aliases.get(me.group(1), "")):
+                continue
+            key = "%s|%s" % (trait, re.sub(r"<.*", "", view.split("view::decorator_t<")[-1]).split(",")[0].replace("nmtools::view::", ""))
+            if e in tbl["allowed_returns"].get(key, {}):
+                continue
+            bad = []
+            if re.search(r"(?<![\w.])\d+(?:\.\d+)?(?:UL|ul|u|L)?\b", re.sub(r",0\)$", ")", re.sub(r"type-parameter-\d+-\d+|lambda@\d+", "", e))):
+                bad.append("numeric literal")
+            if "::min" in e:
+                bad.append("::min used for a static bound")
+            if trait.startswith("fixed") and "::max" in e:
+                bad.append("::max (an upper bound) used for an exact value")
+            if re.search(r" [-/%] ", e):
+                bad.append("arithmetic on values")
+            if " + " in e and not re.fullmatch(r"\(\$init \+ [%\w:<>, ]+\)", e):
+                bad.append("addition outside the fold over operands")
+            # provenance of every type the value is read from
+            for m in re.finditer(r"(?:to_value_v|len_v)<((?:[^<>]|<[^<>]*>)+)>|((?:[\w:]|<(?:[^<>]|<[^<>]*>)*>)+)::(?:value|max)\b|((?:[\w:]|<(?:[^<>]|<[^<>]*>)*>)+)\{\{\}\}", e):
+                t = (m.group(1) or m.group(2) or m.group(3)).strip()
+                last = t.split("::")[-1]
+                d = aliases.get(last)
+                if last == "array_type" and m.group(1) and "len_v<" in m.group(0):
+                    continue    # number of operands of the view
+                if last in PROV_NAMES and (d is None or re.search(r"decltype\(declval<.*view_type>\(\)\.(shape|size)\(\)\)$", d) or re.fullmatch(r"typename view_type::(dst_)?(shape|size)_type", d)):
+                    if (trait in ("fixed_shape", "fixed_dim", "bounded_dim")) and "size_type" in last and "shape" not in last:
+                        bad.append("%s derived from a size type" % trait)
+                    continue
+                bad.append("value read from type '%s', which is not the type of the view's shape()/size() accessor" % t)
+            for m in re.finditer(r"\b(\w+)_v<((?:[^<>]|<[^<>]*>)+)>", e):
+                nm = m.group(1)
+                if nm in ("to_value", "len"):
+                    continue
+                if nm not in TRAITS:
+                    bad.append("derived from '%s_v', not a shape/size trait" % nm)
+            for b in bad:
+                findings.append(finding("R-TRAITPROV", prop, r, e, "%s of %s: %s" % (trait, view[:80], b), f.get("line")))
+        if len(samples) < 5:
+            rs_ = [x["a"] for x in r["facts"] if x["k"] == "return" and "error" not in x["a"]]
+            if rs_:
+                samples.append("R-TRAITPROV %s<%s>: %s" % (trait, view[:50], rs_[0][:80]))
+    return findings, n, samples
+
+
+def comp_traitprov(prop, tier, comp, work):
+    t0 = time.time()
+    tu, n = gen_umbrella(["nmtools/array/view"], work, "umb_view.cpp")
+    rows, err, cmd = run_nmlint(tu, filters=["include/nmtools/array/view/"])
+    out = dict(broken=[], units=n, functions=len(rows), cmd=cmd)
+    if err:
+        out["broken"].append(err); return out
+    f, inst, samples = rule_traitprov(rows, prop)
+    out.update(findings=f, instances={"R-TRAITPROV": inst}, evaluations=inst, distinct_nontrivial=inst - len(set((x["file"], x["line"]) for x in f)), samples=samples, wall_s=round(time.time() - t0, 2))
+    return out
+
+
+# --------------------------------------------------------------------------------------------
 # driver
 # --------------------------------------------------------------------------------------------
 def run(prop, tier, spec, jobs=16):
@@ -829,4 +911,4 @@ def comp_fwd_array(prop, tier, comp, work):
     return out
 
 
-RULES = {"R-FWD.array": comp_fwd_array, "R-FWD.functional": comp_fwd_functional, "R-UFUNC": comp_ufunc, "R-KSIB": comp_ksib, "R-SIMD": comp_simd, "R-CONSTBRANCH": comp_constbranch}
+RULES = {"R-FWD.array": comp_fwd_array, "R-FWD.functional": comp_fwd_functional, "R-UFUNC": comp_ufunc, "R-KSIB": comp_ksib, "R-SIMD": comp_simd, "R-CONSTBRANCH": comp_constbranch, "R-TRAITPROV": comp_traitprov}
